@@ -170,6 +170,18 @@ func calleeName(c *ssa.CallCommon) string {
 	if c.IsInvoke() {
 		return c.Method.Name()
 	}
+	if mc, ok := c.Value.(*ssa.MakeClosure); ok {
+		// a local closure called by name (push(), pop()): its source-level name
+		if refs := mc.Referrers(); refs != nil {
+			for _, r := range *refs {
+				if dr, ok := r.(*ssa.DebugRef); ok && !dr.IsAddr {
+					if id, ok := dr.Expr.(*ast.Ident); ok {
+						return id.Name
+					}
+				}
+			}
+		}
+	}
 	if f := c.StaticCallee(); f != nil {
 		return f.Name()
 	}
